@@ -271,10 +271,10 @@ class Interp:
         if k == "struct":
             names = [n for n, _ in rv[2]]
             vals = [self.operand(ctx, fr, o) for _, o in rv[2]]
-            return self.make_adt(fr, rv[1], vals, names)
+            return self.make_adt(fr, rv[1], vals, names, dest_ty)
         if k == "ctor":
             vals = [self.operand(ctx, fr, o) for o in rv[2]]
-            return self.make_adt(fr, rv[1], vals, None)
+            return self.make_adt(fr, rv[1], vals, None, dest_ty)
         if k == "len":
             v = self.force(ctx, self.read_place(ctx, fr, rv[1]))
             return len(v.items)
@@ -289,9 +289,18 @@ class Interp:
         lo_hi = getattr(ctx, "ranges", None)
         return v % mod
 
-    def make_adt(self, fr, path, vals, names):
+    def make_adt(self, fr, path, vals, names, dest_ty=None):
         segs = path.split("::")
         last = segs[-1]
+        if len(segs) == 1 and dest_ty:
+            # enum variants are printed with their trimmed path (bare variant name): recover the enum from the destination type
+            dn = simple_name(dest_ty)
+            if dn in ("Option", "Result", "ControlFlow", "Ordering", "Bound") and last in ("Some", "None", "Ok", "Err", "Continue", "Break", "Less", "Equal", "Greater", "Inclusive", "Exclusive"):
+                return EnumV(dn, last, vals, names)
+            if dn != last:
+                td = self.prog.types.lookup(dest_ty, fr.fn.crate)
+                if td is not None and td.kind == "enum" and any(v.name == last for v in td.variants):
+                    return EnumV(td.name, last, vals, names)
         if len(segs) >= 2:
             parent = segs[-2]
             if parent in ("Option", "Result", "ControlFlow", "Ordering", "Bound"):
